@@ -3,8 +3,13 @@ Tie B: run BondPercolation / SitePercolation with a scripted shuffle and a sampl
 records the raw component array, largestComponentSize(), components(), componentSize(n) for all n
 and a copy of the working network; compare with Model/NewmanZiff.v.
 D: the property restated directly on those observables (BFS on the recorded working network,
-one sample per requested point, taken after the first k occupations with k/M >= p, ...)."""
+one sample per requested point, taken after the first k occupations with k/M >= p, ...).
+A case is a history of 1-3 runs of ONE experiment object; between runs the prototype network may be
+edited in place (edge/node added, edge removed) or replaced (setNetworkGenerator); tie and D are applied
+to every run against the network as it is at that run."""
 import itertools
+import json
+import math
 from fractions import Fraction
 
 import networkx
@@ -114,11 +119,15 @@ class H(Harness):
     THOROUGH_N = 5000
     ALLOWED_AXIOMS = set()
     RULE = ('bond and site percolation on networks of 1-10 nodes labelled 0..N-1 (complete/path/star/cycle/empty/several clumps/'
-            'random/with self-loops, both edge orientations, shuffled insertion order); samples = a count 1-25 or an explicit list '
-            '(dyadic values, j/M, j/M +- 2^-30, with and without 0 and 1, possibly more points than elements); a scripted shuffle; '
-            'all permutations of the elements for small M (exhaustive part); cases on which the binary64 comparison (i+1)/M >= p '
-            'differs from the exact one for some i, p are dropped and counted; a case is non-trivial when M >= 2, at least two '
-            'samples are taken, one of them strictly inside the run; distinct by (kind, edges, points, permutation)')
+            'random/with self-loops, both edge orientations, shuffled insertion order) and rings with M = 6, 12, 24 elements; '
+            'samples = a count 1-25 (often) or 26-101 (linspace points as users pass them) or an explicit list (dyadic values, j/M, '
+            'j/M +- 2^-30, the binary64 neighbours of j/M (nextafter up/down), with and without 0 and 1, possibly more points than '
+            'elements); a scripted shuffle per run; histories of 1-3 runs of one experiment object with in-place edits of the '
+            'prototype (edge added/removed, node added) or setNetworkGenerator(other graph) between runs; all permutations of the '
+            'elements for small M (exhaustive part); a fixed list of linspace counts x highly divisible M; cases on which the '
+            'binary64 comparison (i+1)/M >= p differs from the exact one for some i, p (in any run) are dropped and counted; a case '
+            'is non-trivial when some run has M >= 2, at least two samples, one of them strictly inside the run; distinct by '
+            '(kind, edges, points, history)')
     TRUSTED = ['Coq 8.16.1 kernel incl. vm_compute',
                'harness/c13.py and vlib (scripted shuffle, sample() override calling the public queries, copies of the working network)',
                'networkx Graph add_node/add_edge/neighbors/edges/nodes modelled as duplicate-free node and undirected edge lists',
@@ -129,19 +138,26 @@ class H(Harness):
 
     # ---------------------------------------------------------------- generation
     def _mk(self, kind, n, es, samples, perm):
+        """single-run case (also the format of older corpus files)"""
         return {'kind': kind, 'n': n, 'edges': [list(e) for e in es], 'samples': samples, 'perm': list(perm)}
+
+    @staticmethod
+    def _runs(case):
+        return case['runs'] if 'runs' in case else [{'edit': None, 'perm': case['perm']}]
 
     @staticmethod
     def _M(kind, n, es):
         return len(es) if kind == 'bond' else n
 
-    def _points(self, rnd, M):
-        t = rnd.randrange(8)
-        if t <= 2:
+    def _points(self, rnd, M, big=True):
+        t = rnd.randrange(20)
+        if t <= 6 or (t == 7 and not big):     # (many samples x several runs make the Coq literal of a case large)
             return rnd.randrange(1, 26)
+        if t == 7:
+            return rnd.randrange(26, 102)
         k = rnd.randrange(1, 9)
         pts = set()
-        style = rnd.randrange(4)
+        style = rnd.randrange(6)
         for _ in range(k):
             if style == 0 or M == 0:
                 pts.add(rnd.randrange(0, 65) / 64.0)
@@ -149,6 +165,8 @@ class H(Harness):
                 pts.add(rnd.randrange(0, M + 1) / M)
             elif style == 2:
                 pts.add(min(1.0, max(0.0, rnd.randrange(0, M + 1) / M + rnd.choice([-1, 1]) * 2.0 ** -30)))
+            elif style in (3, 4):    # the binary64 neighbours of j/M
+                pts.add(min(1.0, max(0.0, math.nextafter(rnd.randrange(0, M + 1) / M, rnd.choice([-math.inf, math.inf])))))
             else:
                 pts.add(rnd.randrange(0, 1 << 10) / float(1 << 10))
         ends = rnd.randrange(4)      # with / without 0 and 1
@@ -160,22 +178,78 @@ class H(Harness):
         rnd.shuffle(pts)             # the constructor sorts
         return pts
 
-    def gen_cases(self, tier, rnd, n):
-        out = []
-        kinds = ['complete', 'path', 'star', 'cycle', 'empty', 'two', 'two', 'random', 'random', 'random', 'loops', 'loops']
-        self.dropped = 0
-        while len(out) < n:
-            kind = rnd.choice(['bond', 'site'])
+    GRAPH_KINDS = ['complete', 'path', 'star', 'cycle', 'empty', 'two', 'two', 'random', 'random', 'random', 'loops', 'loops']
+
+    def _gen_single(self, rnd):
+        kind = rnd.choice(['bond', 'site'])
+        if rnd.randrange(8) == 0:        # rings with a highly divisible number of elements
+            nn = rnd.choice([6, 12, 12, 24])
+            es = make_edges(rnd, nn, 'cycle')
+        else:
             nn = rnd.randrange(1, 11)
-            es = make_edges(rnd, nn, rnd.choice(kinds))
-            M = self._M(kind, nn, es)
-            samples = self._points(rnd, M)
-            if not floats_agree(M, sample_points(samples)):
-                self.dropped += 1
-                continue
+            es = make_edges(rnd, nn, rnd.choice(self.GRAPH_KINDS))
+        M = self._M(kind, nn, es)
+        samples = self._points(rnd, M, nn <= 12)
+        if not floats_agree(M, sample_points(samples)):
+            return None
+        perm = list(range(M))
+        rnd.shuffle(perm)
+        return self._mk(kind, nn, es, samples, perm)
+
+    def _gen_history(self, rnd):
+        """2-3 runs of one experiment object, the prototype edited or replaced between them"""
+        kind = rnd.choice(['bond', 'site', 'site'])
+        n = rnd.randrange(2, 9)
+        es = make_edges(rnd, n, rnd.choice(self.GRAPH_KINDS))
+        samples = self._points(rnd, self._M(kind, n, es), False)
+        pts = sample_points(samples)
+        cur_n, cur = n, [tuple(e) for e in es]
+        runs = []
+        for r in range(rnd.choice([2, 2, 3])):
+            edit = None
+            if r > 0:
+                op = rnd.choice(['add_edge', 'add_edge', 'add_edge', 'remove_edge', 'remove_edge', 'add_node', 'setgen', 'none'])
+                have = {norm(e) for e in cur}
+                if op == 'add_edge':
+                    free = [(a, b) for a in range(cur_n) for b in range(a + 1, cur_n) if (a, b) not in have]
+                    if free:
+                        a, b = rnd.choice(free)
+                        e = (a, b) if rnd.random() < 0.5 else (b, a)
+                        cur.append(e); edit = {'op': 'add_edge', 'e': list(e)}
+                elif op == 'remove_edge':
+                    if cur:
+                        e = cur.pop(rnd.randrange(len(cur))); edit = {'op': 'remove_edge', 'e': list(e)}
+                elif op == 'add_node':
+                    nbrs = sorted(rnd.sample(range(cur_n), rnd.randrange(0, min(cur_n, 2) + 1)))
+                    edit = {'op': 'add_node', 'node': cur_n, 'nbrs': nbrs}
+                    cur += [(cur_n, b) for b in nbrs]; cur_n += 1
+                elif op == 'setgen':
+                    cur_n = rnd.randrange(1, 9)
+                    cur = [tuple(e) for e in make_edges(rnd, cur_n, rnd.choice(self.GRAPH_KINDS))]
+                    edit = {'op': 'setgen', 'n': cur_n, 'edges': [list(e) for e in cur]}
+            M = self._M(kind, cur_n, cur)
+            if not floats_agree(M, pts):
+                return None
             perm = list(range(M))
             rnd.shuffle(perm)
-            out.append(self._mk(kind, nn, es, samples, perm))
+            runs.append({'edit': edit, 'perm': perm})
+        return {'kind': kind, 'n': n, 'edges': [list(e) for e in es], 'samples': samples, 'runs': runs}
+
+    def gen_cases(self, tier, rnd, n):
+        out = []
+        self.dropped = 0
+        while len(out) < n:
+            c = self._gen_history(rnd) if rnd.randrange(4) == 0 else self._gen_single(rnd)
+            if c is None:
+                self.dropped += 1
+                continue
+            out.append(c)
+        # the driver cuts the case list into files of 300: spread the cases with long literals over the files
+        heavy = [c for c in out if isinstance(c['samples'], int) and c['samples'] > 25]
+        light = [c for c in out if not (isinstance(c['samples'], int) and c['samples'] > 25)]
+        third = (len(heavy) + 2) // 3
+        cut = max(0, min(len(light), 300 - 250))
+        out = heavy[:third] + light[:cut] + heavy[third:2 * third] + light[cut:] + heavy[2 * third:]
         out[-1]['_dropped'] = self.dropped
         return out
 
@@ -196,25 +270,38 @@ class H(Harness):
                         continue
                     for perm in itertools.permutations(range(M)):
                         out.append(self._mk(kind, nn, es, samples, perm))
+        # linspace sample counts x rings with a highly divisible number of elements: the requested points
+        # include binary64 neighbours of j/M (e.g. 11/33 computed by linspace lies one ulp above 1/3)
+        counts = [34, 46, 67] if tier == 'quick' else list(range(26, 102))
+        Ms = [6, 12] if tier == 'quick' else [3, 6, 12, 24]
+        for cnt in counts:
+            for M in Ms:
+                if not floats_agree(M, sample_points(cnt)):
+                    continue
+                ring = [(i, (i + 1) % M) for i in range(M)] if M >= 3 else [(0, 1)]
+                for kind in ('bond', 'site'):
+                    if self._M(kind, M, ring) != M:
+                        continue
+                    perm = [(7 * i + 3) % M for i in range(M)] if math.gcd(7, M) == 1 else list(range(M))[::-1]
+                    out.append(self._mk(kind, M, ring, cnt, perm))
         return out
 
     # ---------------------------------------------------------------- running the implementation
     def execute(self, case):
         from epydemic import BondPercolation, SitePercolation
-        n = case['n']
+        kind = case['kind']
         g = networkx.Graph()
-        g.add_nodes_from(range(n))
+        g.add_nodes_from(range(case['n']))
         g.add_edges_from([tuple(e) for e in case['edges']])
-        proto_nodes = list(g.nodes()); proto_edges = list(g.edges())
-        proto_adj = {u: list(g.neighbors(u)) for u in g.nodes()}
-        rec = {'samples': [], 'events': [], 'arg': None, 'nodes0': None, 'edges0': None}
-        base = BondPercolation if case['kind'] == 'bond' else SitePercolation
+        rec = {}
+        base = BondPercolation if kind == 'bond' else SitePercolation
 
         class Rec(base):
             def simulationStarted(self, params):
                 w = self.network()
+                rec['n'] = w.order()
                 rec['nodes0'] = list(w.nodes()); rec['edges0'] = [tuple(e) for e in w.edges()]
-                rec['adj0'] = [list(w.neighbors(u)) for u in range(n)]
+                rec['adj0'] = [list(w.neighbors(u)) if u in w else None for u in range(w.order())]
                 super().simulationStarted(params)
 
             def percolate(self, xs):
@@ -229,7 +316,7 @@ class H(Harness):
                 raw = [int(x) for x in self._components]
                 gcc = int(self.largestComponentSize())
                 nc = int(self.components())
-                sizes = [int(self.componentSize(u)) for u in range(n)]
+                sizes = [int(self.componentSize(u)) for u in range(rec['n'])]
                 w = self.network()
                 rec['samples'].append({'p': float(p), 'comp': raw, 'gcc': gcc, 'ncomp': nc, 'sizes': sizes,
                                        'wnodes': [int(u) for u in w.nodes()], 'wedges': [(int(a), int(b)) for a, b in w.edges()],
@@ -238,55 +325,100 @@ class H(Harness):
 
         samples = case['samples']
         e = Rec(g, samples=samples if isinstance(samples, int) else list(samples))
-        orc = install(Oracle(seed=0, script={'shuffle': [case['perm']]}))
-        exc = None
-        series = None
-        try:
-            rc = e.run(fatal=True)
-            res = rc['results']
-            ps = res.get(base.P, []); gs = res.get(base.GCC, [])
-            series = [(float(a), int(b)) for a, b in zip(ps, gs)] if len(ps) == len(gs) else None
-            if set(res.keys()) - {base.P, base.GCC}:
-                series = None
-        except Exception as ex:      # observable behaviour (F5: IndexError)
-            exc = type(ex).__name__ + ': ' + str(ex)
-        taken = len(rec['samples'])
-        stats = {'cases_' + case['kind']: 1, 'samples_taken': taken, 'occupations': len(rec['events']),
+        points = [float(x) for x in e._samplepoints]
+        robs = []
+        stats = {'cases_' + kind: 1, 'cases_with_several_runs': int(len(self._runs(case)) > 1),
                  'cases_samples_given_as_count': int(isinstance(samples, int)),
-                 'cases_more_points_than_elements': int(len(e._samplepoints) > self._M(case['kind'], n, case['edges'])),
-                 'cases_without_0': int(len(e._samplepoints) > 0 and e._samplepoints[0] != 0.0),
-                 'cases_without_1': int(len(e._samplepoints) > 0 and e._samplepoints[-1] != 1.0),
-                 'cases_raised': int(exc is not None),
-                 'generated_cases_dropped_float_boundary': case.get('_dropped', 0)}
-        return {'stats': stats, 'exception': exc, 'points': [float(x) for x in e._samplepoints],
-                'nodes0': rec['nodes0'], 'edges0': rec['edges0'], 'adj0': rec.get('adj0'), 'arg': rec['arg'],
-                'samples': rec['samples'], 'events': rec['events'], 'series': series,
-                'proto_same': (list(g.nodes()) == proto_nodes and list(g.edges()) == proto_edges
-                               and {u: list(g.neighbors(u)) for u in g.nodes()} == proto_adj),
-                'proto_edges': proto_edges,
-                'shuffles': [list(s[1]) for s in orc.values('shuffle')]}
+                 'cases_count_above_25': int(isinstance(samples, int) and samples > 25),
+                 'cases_without_0': int(len(points) > 0 and points[0] != 0.0),
+                 'cases_without_1': int(len(points) > 0 and points[-1] != 1.0),
+                 'generated_cases_dropped_float_boundary': case.get('_dropped', 0),
+                 'runs': 0, 'samples_taken': 0, 'occupations': 0, 'runs_raised': 0, 'runs_more_points_than_elements': 0,
+                 'runs_after_inplace_edit': 0, 'runs_after_setNetworkGenerator': 0}
+        for run in self._runs(case):
+            ed = run.get('edit')
+            if ed:
+                if ed['op'] == 'add_edge':
+                    g.add_edge(*ed['e'])
+                elif ed['op'] == 'remove_edge':
+                    g.remove_edge(*ed['e'])
+                elif ed['op'] == 'add_node':
+                    g.add_node(ed['node'])
+                    for b in ed['nbrs']:
+                        g.add_edge(ed['node'], b)
+                elif ed['op'] == 'setgen':
+                    g = networkx.Graph()
+                    g.add_nodes_from(range(ed['n']))
+                    g.add_edges_from([tuple(x) for x in ed['edges']])
+                    e.setNetworkGenerator(g)
+                stats['runs_after_setNetworkGenerator' if ed['op'] == 'setgen' else 'runs_after_inplace_edit'] += 1
+            n = g.order()
+            proto_nodes = list(g.nodes()); proto_edges = list(g.edges())
+            proto_adj = {u: list(g.neighbors(u)) for u in g.nodes()}
+            rec.clear()
+            rec.update({'samples': [], 'events': [], 'arg': None, 'nodes0': None, 'edges0': None, 'adj0': None, 'n': n})
+            orc = install(Oracle(seed=0, script={'shuffle': [run['perm']]}))
+            exc = None
+            series = None
+            try:
+                rc = e.run(fatal=True)
+                res = rc['results']
+                ps = res.get(base.P, []); gs = res.get(base.GCC, [])
+                series = [(float(a), int(b)) for a, b in zip(ps, gs)] if len(ps) == len(gs) else None
+                if set(res.keys()) - {base.P, base.GCC}:
+                    series = None
+            except Exception as ex:      # observable behaviour (F5: IndexError)
+                exc = type(ex).__name__ + ': ' + str(ex)
+            M = self._M(kind, n, proto_edges)
+            stats['runs'] += 1; stats['samples_taken'] += len(rec['samples']); stats['occupations'] += len(rec['events'])
+            stats['runs_raised'] += int(exc is not None); stats['runs_more_points_than_elements'] += int(len(points) > M)
+            robs.append({'exception': exc, 'n': n, 'perm': list(run['perm']),
+                         'nodes0': rec['nodes0'], 'edges0': rec['edges0'], 'adj0': rec['adj0'], 'arg': rec['arg'],
+                         'samples': rec['samples'], 'events': rec['events'], 'series': series,
+                         'proto_same': (list(g.nodes()) == proto_nodes and list(g.edges()) == proto_edges
+                                        and {u: list(g.neighbors(u)) for u in g.nodes()} == proto_adj),
+                         'proto_nodes': proto_nodes, 'proto_edges': proto_edges,
+                         'proto_adj': [sorted(proto_adj[u]) for u in proto_nodes],
+                         'shuffles': [list(s[1]) for s in orc.values('shuffle')]})
+            if exc is not None:
+                break
+        return {'stats': stats, 'points': points, 'runs': robs}
 
     # ---------------------------------------------------------------- D
     def direct(self, case, obs):
-        v = []
-        kind, n = case['kind'], case['n']
-        es = [tuple(e) for e in case['edges']]
-        M = self._M(kind, n, es)
+        out = []
         want = sample_points(case['samples'])
+        for r, ro in enumerate(obs['runs']):
+            for v in self._direct_run(case['kind'], want, ro):
+                v['detail'] = {'run': r, 'edits_before': [x.get('edit') for x in self._runs(case)[:r + 1]], 'what': v.get('detail')}
+                out.append(v)
+        return out
+
+    def _direct_run(self, kind, want, obs):
+        """the property on one run, against the prototype network as it is at that run"""
+        v = []
+        n = obs['n']
+        M = self._M(kind, n, obs['proto_edges'])
         if obs['exception']:
             return [{'signature': 'percolation-raised', 'detail': {'exception': obs['exception'], 'points': want, 'M': M,
                                                                   'samples_taken': [s['p'] for s in obs['samples']]}}]
         if not obs['proto_same']:
             v.append({'signature': 'prototype-modified', 'detail': None})
-        # the occupation order is the shuffled element list
-        base = [norm(e) for e in obs['proto_edges']] if kind == 'bond' else list(range(n))
+        if obs['proto_nodes'] != list(range(n)):
+            return v          # outside the quantifier of the property (nodes labelled 0..N-1)
+        # the working copy is a copy of the prototype as it is now; the occupation order is its shuffled element list
+        proto_e = {norm(e) for e in obs['proto_edges']}
+        base = sorted(proto_e) if kind == 'bond' else list(range(n))
         arg = obs['arg']
-        if arg is None:
+        if arg is None or obs['nodes0'] is None:
             return v + [{'signature': 'percolate-not-called', 'detail': None}]
+        if sorted(obs['nodes0']) != list(range(n)) or sorted(norm(e) for e in obs['edges0']) != sorted(proto_e) \
+                or len(obs['edges0']) != len(proto_e) or [sorted(a) if a is not None else None for a in obs['adj0']] != obs['proto_adj']:
+            v.append({'signature': 'working-copy-not-the-network', 'detail': {'nodes': obs['nodes0'], 'edges': obs['edges0']}})
         order = [norm(x) for x in arg] if kind == 'bond' else list(arg)
         pre = [norm(e) for e in obs['edges0']] if kind == 'bond' else list(obs['nodes0'])
-        if not (len(obs['shuffles']) == 1 and obs['shuffles'][0] == case['perm'] and sorted(pre) == sorted(base)
-                and order == [pre[i] for i in case['perm']]):
+        if not (len(obs['shuffles']) == 1 and obs['shuffles'][0] == obs['perm'] and sorted(pre) == sorted(base)
+                and order == [pre[i] for i in obs['perm']]):
             v.append({'signature': 'order-not-the-shuffle', 'detail': {'arg': arg, 'before': pre, 'shuffles': obs['shuffles']}})
         evs = [norm(e[2]) if kind == 'bond' else e[2] for e in obs['events']]
         if evs != order[:len(evs)]:
@@ -298,8 +430,7 @@ class H(Harness):
                 v.append({'signature': 'sample-points', 'detail': {'requested': want, 'sampled': labels, 'M': M}})
         elif labels != want[:len(labels)]:
             v.append({'signature': 'sample-points', 'detail': {'requested': want, 'sampled': labels, 'M': M}})
-        # every sample: taken after the first k occupations with k/M >= p; true component structure
-        proto_e = {norm(e) for e in obs['proto_edges']}
+        # every sample: taken after the first k occupations with k/M >= p (exact arithmetic); true component structure
         for j, s in enumerate(obs['samples']):
             k = first_reached(M, s['p'])
             if k is None or s['nocc'] != k:
@@ -334,13 +465,22 @@ class H(Harness):
 
     # ---------------------------------------------------------------- tie B
     def to_coq(self, case, obs):
-        n = case['n']
         site = case['kind'] == 'site'
+        pts = sample_points(case['samples'])
+        return L.lst([self._run_to_coq(site, pts, ro) for ro in obs['runs']])
+
+    def _run_to_coq(self, site, pts, obs):
         pe = lambda e: '(%s, %s)' % (L.nat(e[0]), L.nat(e[1]))
         raised = bool(obs['exception']) or obs['arg'] is None or obs['nodes0'] is None
-        ok_shuffle = len(obs.get('shuffles', [])) == 1 and obs['shuffles'][0] == case['perm']
-        if raised or not ok_shuffle:
-            # the model never raises and always uses the scripted shuffle once: an observation that cannot match
+        ok_shuffle = len(obs.get('shuffles', [])) == 1 and obs['shuffles'][0] == obs['perm']
+        # the model is run on the prototype as the harness knows it at this run (node order, g.edges() order and
+        # neighbour order of a networkx copy are those of the original)
+        same_copy = (not raised and obs['nodes0'] == obs['proto_nodes']
+                     and sorted(norm(e) for e in obs['edges0']) == sorted(norm(e) for e in obs['proto_edges'])
+                     and [sorted(a) if a is not None else None for a in obs['adj0']] == obs['proto_adj'])
+        if raised or not ok_shuffle or not same_copy or obs['proto_nodes'] != list(range(obs['n'])):
+            # the model never raises, always uses the scripted shuffle once and works on a copy of the current
+            # prototype: an observation that cannot match
             return ('{| c_site := %s; c_nodes := []; c_edges := []; c_adj := []; c_perm := []; c_ps := []; o_raised := true; '
                     'o_arg_edges := []; o_arg_nodes := []; o_samples := []; o_series := []; o_ev_edges := []; o_ev_nodes := [] |}') % L.b(site)
 
@@ -353,21 +493,26 @@ class H(Harness):
         return ('{| c_site := %s; c_nodes := %s; c_edges := %s; c_adj := %s; c_perm := %s; c_ps := %s; o_raised := false; '
                 'o_arg_edges := %s; o_arg_nodes := %s; o_samples := %s; o_series := %s; o_ev_edges := %s; o_ev_nodes := %s |}') % (
             L.b(site), L.lst(obs['nodes0'], L.nat), L.lst(obs['edges0'], pe),
-            L.lst([L.lst(a, L.nat) for a in obs['adj0']]), L.lst(case['perm'], L.nat),
-            L.lst(sample_points(case['samples']), L.q),
+            L.lst([L.lst(a, L.nat) for a in obs['adj0']]), L.lst(obs['perm'], L.nat),
+            L.lst(pts, L.q),
             L.lst([] if site else obs['arg'], pe), L.lst(obs['arg'] if site else [], L.nat),
             L.lst([smp(s) for s in obs['samples']]),
             L.lst(['(%s, %s)' % (L.q(a), L.z(b)) for a, b in series]),
             L.lst([] if site else evs, pe), L.lst(evs if site else [], L.nat))
 
     def nontrivial(self, case, obs):
-        M = self._M(case['kind'], case['n'], case['edges'])
-        ss = obs.get('samples') or []
-        if M >= 2 and len(ss) >= 2 and any(0 < s['nocc'] < M for s in ss):
-            return (case['kind'], tuple(map(tuple, case['edges'])), tuple(sample_points(case['samples'])), tuple(case['perm']))
+        for ro in obs.get('runs') or []:
+            M = self._M(case['kind'], ro['n'], ro['proto_edges'])
+            ss = ro.get('samples') or []
+            if M >= 2 and len(ss) >= 2 and any(0 < s['nocc'] < M for s in ss):
+                return (case['kind'], tuple(map(tuple, case['edges'])), tuple(sample_points(case['samples'])),
+                        json.dumps(self._runs(case), sort_keys=True))
         return None
 
     def sample_view(self, case, obs):
-        return {'case': case, 'points': obs.get('points'), 'exception': obs.get('exception'),
-                'samples': [{k: s[k] for k in ('p', 'nocc', 'gcc', 'ncomp', 'sizes')} for s in (obs.get('samples') or [])][:6],
+        runs = obs.get('runs') or []
+        return {'case': case, 'points': obs.get('points'),
+                'runs': [{'exception': ro.get('exception'), 'n': ro.get('n'),
+                          'samples': [{k: s[k] for k in ('p', 'nocc', 'gcc', 'ncomp', 'sizes')} for s in (ro.get('samples') or [])][:6]}
+                         for ro in runs],
                 'dropped_float_boundary_cases': getattr(self, 'dropped', None)}
